@@ -489,6 +489,109 @@ CONFIGS = {
 }
 
 
+# ---- the governing definition reached by a ROUTE other than a plain class attribute ------------------------------------------
+# chain / chainproto: the assigned attribute defers (renaming first hop) through two objects to the attribute that carries the
+# definition; wild: the name is governed by an inherited wildcard while the subclass declares a shorter wildcard of another type;
+# subprop: a validated Property of a base class whose setter the subclass overrides; subdefault: the subclass re-declares the
+# attribute with a plain default value (same definition, new default)
+ROUTES = ("chain", "chainproto", "wild", "subprop", "subdefault")
+ROUTE_INNER = {"Int": ["none", "bool", "int", "intsub", "indexobj", "float", "str"],
+               "Float": ["none", "bool", "int64", "float", "floatsub", "floatobj", "str"],
+               "RangeFloatConst": ["bool", "int64", "indexobj"]}
+for _r in ROUTES:
+    for _inner, _kinds in ROUTE_INNER.items():
+        CONFIGS["Via:%s:%s" % (_r, _inner)] = (CONFIGS[_inner][0], CONFIGS[_inner][1], _kinds)
+
+
+def build_route(route, ttype, inner):
+    """-> (object assigned to, attribute name assigned, object and name carrying the definition, state() -> comparable dict in which
+    the governed value sits under 'x', names acceptable in the TraitError)"""
+    from traits.api import Property, DelegatesTo, PrototypedFrom
+    if route in ("chain", "chainproto"):
+        kind = DelegatesTo if route == "chain" else PrototypedFrom
+
+        class C(A):
+            y = ttype
+            x = Str("decoy")
+            other = Int(7)
+
+        class B_(A):
+            c = Instance(C)
+            y = kind("c")
+
+        class Owner(A):
+            b = Instance(B_)
+            x = kind("b", prefix="y")
+            other = Int(7)
+        c = C()
+        b = B_(c=c)
+        o = Owner(b=b)
+
+        def state():
+            d = {k: v for k, v in o.__dict__.items() if k not in ("b", "x")}
+            d.update({"b." + k: v for k, v in b.__dict__.items() if k != "c"})
+            d.update({"c." + k: v for k, v in c.__dict__.items() if k != "y"})
+            if route == "chain":
+                if "y" in c.__dict__:
+                    d["x"] = c.__dict__["y"]
+                if "x" in o.__dict__:
+                    d["local.x"] = o.__dict__["x"]
+            else:
+                if "x" in o.__dict__:
+                    d["x"] = o.__dict__["x"]
+                if "y" in c.__dict__:
+                    d["c.y"] = c.__dict__["y"]
+            return d
+        return o, "x", c, "y", state, ("x", "y")
+    if route == "wild":
+        class Base(A):
+            limit_max_ = ttype
+
+        class Owner(Base):
+            limit_ = Str("s")
+            other = Int(7)
+        o = Owner()
+
+        def state():
+            d = dict(o.__dict__)
+            if "limit_max_x" in d:
+                d["x"] = d.pop("limit_max_x")
+            return d
+        return o, "limit_max_x", o, "limit_max_x", state, ("limit_max_x",)
+    if route == "subprop":
+        class Base(A):
+            x = Property(ttype)
+            other = Int(7)
+
+            def _get_x(self):
+                return self.__dict__.get("x_store")
+
+            def _set_x(self, value):
+                self.__dict__["x_store"] = value
+
+        class Owner(Base):
+            def _set_x(self, value):           # the subclass overrides the setter only: the inherited validation stays
+                self.__dict__["x_store"] = value
+        o = Owner()
+
+        def state():
+            d = dict(o.__dict__)
+            if "x_store" in d:
+                d["x"] = d.pop("x_store")
+            return d
+        return o, "x", o, "x", state, ("x",)
+    if route == "subdefault":
+        class Base(A):
+            x = ttype
+            other = Int(7)
+
+        class Owner(Base):
+            x = 3 if inner == "Int" else 0.5
+        o = Owner()
+        return o, "x", o, "x", (lambda: dict(o.__dict__)), ("x",)
+    raise ValueError(route)
+
+
 def patch_symbolic(it, o, ttype, st):
     """symbolic trait parameters that the real constructors cannot take: put them into the abstract record"""
     ct = o.trait("x")
@@ -527,11 +630,15 @@ def patch_members(handler):
 def make_harness(cfgname, kind):
     mk, dom, _kinds = CONFIGS[cfgname]
     as_property = cfgname.startswith("Property:")
+    route = cfgname.split(":")[1] if cfgname.startswith("Via:") else None
 
     def harness(ex):
         ttype, st = mk(ex)
+        aname, names_ok, state = "x", ("x",), None
 
-        if as_property:
+        if route:
+            o, aname, tobj, tname, state, names_ok = build_route(route, ttype, cfgname.split(":")[2])
+        elif as_property:
             # x = Property(<inner trait>): the value is validated by the inner trait and the SETTER receives the validated value
             from traits.api import Property
 
@@ -549,23 +656,28 @@ def make_harness(cfgname, kind):
                 x = ttype
                 other = Int(7)
 
-        o = Owner()
+        if not route:
+            o = Owner()
+            tobj, tname = o, "x"
+        if state is None:
+            state = lambda: dict(o.__dict__)
         log = []
         quiet = cfgname in ("Map", "Int", "RangeInt") and ex.flag("notifications_off")
         if quiet:
             o._trait_change_notify(False)      # what trait_setq / trait_set(trait_change_notify=False) do
-        o.on_trait_change(lambda obj, name, old, new: log.append(name), "x")
+        o.on_trait_change(lambda obj, name, old, new: log.append(name), aname)
         o.on_trait_change(lambda obj, name, old, new: log.append(name), "other")
-        before = dict(o.__dict__)
+        before = state()
         value = mk_value(ex, kind)
         err = None
         if ex.sym:
             it = cenv.new_interp()
-            patch_symbolic(it, o, ttype, st)
-            patch_members(o.trait("x").handler)
+            if not route:
+                patch_symbolic(it, o, ttype, st)
+            patch_members(tobj.trait(tname).handler)
             os_ = cenv.hastraits_struct(it, o)
             with cenv.python_side_env(), _InfoStub():
-                rc = it.call("has_traits_setattro", [os_, "x", value])
+                rc = it.call("has_traits_setattro", [os_, aname, value])
             if rc != 0:
                 if it.st.err is None:
                     raise csym.MemSafety("setattr returned -1 without an exception")
@@ -574,11 +686,11 @@ def make_harness(cfgname, kind):
                 raise csym.MemSafety("setattr returned 0 with an exception set")
         else:
             try:
-                how = ex.choice("entry", 3)
+                how = ex.choice("entry", 3) if not route else ex.choice("entry", 2)
                 if how == 0:
-                    o.x = value
+                    setattr(o, aname, value)
                 elif how == 1:
-                    o.trait_set(x=value)
+                    o.trait_set(**{aname: value})
                 else:
                     # constructor keyword: a fresh object; mirror its state into `o` for the common oracle below
                     o2 = Owner.__new__(Owner)
@@ -596,7 +708,7 @@ def make_harness(cfgname, kind):
             d = dom(ex, st, value)
         if d[0] == "skip":
             return {"rc": rc}
-        after = dict(o.__dict__)
+        after = state()
         if as_property:
             # what the setter was given plays the role of the stored value
             for dct in (before, after):
@@ -643,7 +755,7 @@ def make_harness(cfgname, kind):
                 ex.check(ename in (d[1], "TraitError") if d[1] != "OtherError" else True,
                          "only TraitError or the value's own conversion exception may surface")
             if ename == "TraitError":
-                ex.check("'x'" in str(err[1]), "the TraitError names the attribute")
+                ex.check(any("'%s'" % n_ in str(err[1]) for n_ in names_ok), "the TraitError names the attribute")
             ex.check({k: v for k, v in after.items() if k != "x"} == {k: v for k, v in before.items() if k != "x"}
                      and ("x" in after) == ("x" in before) and (("x" not in after) or after["x"] is before["x"]),
                      "rejected assignment leaves every attribute exactly as it was")
